@@ -4,7 +4,7 @@
 PFX=${1:-/tmp/seed_}
 one() {
   P=$1; W=${PFX}$P
-  for d in /verif/seeded/S-$P-* /verif/seeded/S2-$P-* /verif/seeded/S3-$P-* /verif/seeded/S4-$P-* /verif/seeded/S5-$P-* /verif/seeded/S6-$P-* /verif/seeded/S7-$P-* /verif/seeded/S8-$P-* /verif/seeded/S9-$P-* /verif/seeded/S10-$P-* /verif/seeded/S11-$P-*; do [ -d $d ] || continue
+  for d in /verif/seeded/S-$P-* /verif/seeded/S2-$P-* /verif/seeded/S3-$P-* /verif/seeded/S4-$P-* /verif/seeded/S5-$P-* /verif/seeded/S6-$P-* /verif/seeded/S7-$P-* /verif/seeded/S8-$P-* /verif/seeded/S9-$P-* /verif/seeded/S10-$P-* /verif/seeded/S11-$P-* /verif/seeded/S13-$P-*; do [ -d $d ] || continue
     id=$(basename $d)
     git -C $W checkout -q -- . ; git -C $W clean -fdq
     if ! git -C $W apply $d/patch.diff 2>/dev/null; then echo "$id: PATCH DOES NOT APPLY"; continue; fi
